@@ -32,14 +32,16 @@ import (
 	"github.com/aergoio/aergo/v2/pkg/trie"
 	"github.com/aergoio/aergo/v2/types/dbkey"
 	tk "github.com/aergoio/aergo/v2/verif_h/triekit"
+	"github.com/aergoio/aergo/v2/verif_h/vsched"
 	"github.com/aergoio/aergo/v2/verif_h/xplor"
 )
 
 type replay struct {
-	Mode  string     `json:"mode"` // bfs | live
+	Mode  string     `json:"mode"` // bfs | live | sched
 	Sel   []int      `json:"sel"`  // universe indexes of the key set
 	Path  []tk.Batch `json:"path,omitempty"`
 	Steps []liveStep `json:"steps,omitempty"`
+	Sched *schedCase `json:"sched,omitempty"`
 }
 
 type liveStep struct {
@@ -524,6 +526,162 @@ func runLiveAll(ctx *xplor.Ctx, cfg liveCfg) {
 		"example": []string{lb[len(lb)-1].String() + " commit", "setroot 1", lb[0].String() + " commit"}})
 }
 
+// ------------------------------------------------------------------ sched mode
+//
+// Interleavings of the goroutines inside ONE Update (parallel subtree updates). pkg/trie is
+// compiled with `go f(..)` -> vsched.Go, `<-ch` -> vsched.Recv and sync -> vsync (harness/c10/REWRITE),
+// so that every goroutine the trie starts is a thread of the cooperative scheduler and every
+// mutex operation, spawn and join is a scheduling point. For every (content, batch) of a small
+// universe whose batch touches both sides of some branch, every schedule with at most k
+// preemptions is executed on a fresh instance over a copy of the stored pre-state; all schedules
+// must give the reference root, the same stored node set and right reads.
+
+type schedCase struct {
+	Sel   []int    `json:"sel"`
+	From  int      `json:"from"` // content id
+	Batch tk.Batch `json:"batch"`
+}
+
+func runSchedCase(ctx *xplor.Ctx, sc schedCase, bound int, st db.DB) string {
+	tk.Use(sc.Sel...)
+	n := len(sc.Sel)
+	c := tk.ContentFromID(sc.From, n)
+	// stored pre-state
+	db.VerifHandleRestore(st, map[string][]byte{})
+	t0, err := tk.Build(st, c)
+	if err != nil {
+		return "build: " + err.Error()
+	}
+	root0 := append([]byte{}, t0.Root...)
+	pre := db.VerifHandleSnapshot(st)
+	want := c.Apply(sc.Batch)
+	ref := tk.RefRoot(want)
+	isF1 := f1(c, sc.Batch)
+	keys, vals := sc.Batch.KV()
+	var cur *trie.Trie
+	var uerr error
+	expired := false
+	outcomes := map[string]bool{}
+	msg := ""
+	stats := vsched.Explore(bound, func() []func() {
+		db.VerifHandleRestore(st, pre)
+		cur = trie.NewTrie(append([]byte{}, root0...), common.Hasher, st)
+		uerr = nil
+		return []func(){func() {
+			if _, e := cur.Update(keys, vals); e != nil {
+				uerr = e
+				return
+			}
+			uerr = cur.Commit()
+		}}
+	}, func(x *vsched.Exec, _ int) bool {
+		ctx.Trace(1)
+		ctx.Trans(int64(len(x.Points)))
+		if ctx.Expired() {
+			expired = true
+			return false
+		}
+		ctx.Max("max_threads_in_one_update", int64(maxThread(x)+1))
+		switch {
+		case x.Deadlock:
+			msg = fmt.Sprintf("deadlock inside Update under schedule %v: %v", x.Choices(), x.Blocked)
+		case x.Horizon:
+			msg = "horizon exceeded inside one Update"
+		case len(x.Panics) > 0:
+			msg = fmt.Sprintf("panic inside Update under schedule %v: %v", x.Choices(), x.Panics)
+		case uerr != nil:
+			msg = fmt.Sprintf("update fails under schedule %v: %v", x.Choices(), uerr)
+		}
+		if msg != "" {
+			return false
+		}
+		post := db.VerifHandleSnapshot(st)
+		nodes := map[string][]byte{}
+		rerr := reach(post, cur.Root, nodes)
+		outcomes[fmt.Sprintf("%x|%s", cur.Root, digest(want, cur.Root, nodes))] = true
+		if !bytes.Equal(cur.Root, ref) {
+			if isF1 {
+				return true // known finding F1: judged in bfs mode
+			}
+			msg = fmt.Sprintf("root %x != reference root %x under schedule %v", cur.Root, ref, x.Choices())
+			return false
+		}
+		if rerr != nil {
+			msg = fmt.Sprintf("stored trie incomplete under schedule %v: %v", x.Choices(), rerr)
+			return false
+		}
+		if e := tk.CheckReads(trie.NewTrie(append([]byte{}, cur.Root...), common.Hasher, st), want); e != nil {
+			msg = fmt.Sprintf("reads wrong under schedule %v: %v", x.Choices(), e)
+			return false
+		}
+		return true
+	})
+	ctx.Count("sched_schedules", int64(stats.Executions))
+	if msg == "" && len(outcomes) > 1 && !isF1 {
+		msg = fmt.Sprintf("%d different stored results depending on the schedule", len(outcomes))
+	}
+	if expired {
+		return ""
+	}
+	if msg == "" && stats.BoundDone < bound {
+		ctx.Incomplete(fmt.Sprintf("sched: preemption bound %d not completed for %v", bound, sc))
+	}
+	return msg
+}
+
+func maxThread(x *vsched.Exec) int {
+	m := 0
+	for _, p := range x.Points {
+		for _, e := range p.Enabled {
+			if int(e) > m {
+				m = int(e)
+			}
+		}
+	}
+	return m
+}
+
+func runSched(ctx *xplor.Ctx) {
+	bound, maxk := 1, 2
+	// keys spanning the top and the bottom node batches, so that one batch splits at several heights
+	sel := []int{0, 1, 7, 11}
+	if ctx.Tier == "thorough" {
+		bound, maxk = 2, 2
+		sel = []int{0, 1, 4, 7, 11}
+	}
+	n := len(sel)
+	runtime.GOMAXPROCS(1)
+	tk.Use(sel...)
+	batches := tk.Batches(n, maxk)
+	st := db.NewDB(db.VerifImpl, fmt.Sprintf("c10-sched-%d", ctx.Shard))
+	idx := 0
+	pow := 1
+	for i := 0; i < n; i++ {
+		pow *= 3
+	}
+	for from := 0; from < pow; from++ {
+		for _, b := range batches {
+			if len(b) < 2 {
+				continue // a single key never forks
+			}
+			idx++
+			if idx%(ctx.NShards-1) != ctx.Shard-1 {
+				continue
+			}
+			if ctx.Expired() {
+				return
+			}
+			sc := schedCase{Sel: sel, From: from, Batch: b}
+			ctx.Eval(1)
+			if m := runSchedCase(ctx, sc, bound, st); m != "" {
+				ctx.Violation("", fmt.Sprintf("sched: keys %v from %v batch %v: %s", tk.Names, tk.ContentFromID(from, n), b, m), replay{Mode: "sched", Sched: &sc})
+			} else {
+				ctx.Distinct(xplor.Hash("sched", from, b.String()))
+			}
+		}
+	}
+}
+
 func run(ctx *xplor.Ctx) {
 	if ctx.Replay != nil {
 		var r replay
@@ -531,6 +689,15 @@ func run(ctx *xplor.Ctx) {
 			panic(err)
 		}
 		switch r.Mode {
+		case "sched":
+			bound := 1
+			if ctx.Tier == "thorough" {
+				bound = 2
+			}
+			st := db.NewDB(db.VerifImpl, "c10-sched-replay")
+			if m := runSchedCase(ctx, *r.Sched, bound, st); m != "" {
+				ctx.Violation("", fmt.Sprintf("sched: keys %v from %v batch %v: %s", tk.Names, tk.ContentFromID(r.Sched.From, len(r.Sched.Sel)), r.Sched.Batch, m), r)
+			}
 		case "bfs":
 			replayBFS(ctx, r)
 		case "live":
@@ -542,6 +709,12 @@ func run(ctx *xplor.Ctx) {
 		}
 		return
 	}
+	// worker 0: bfs + live modes (parallel inside the process); workers 1..: sched mode
+	if ctx.Shard > 0 {
+		runSched(ctx)
+		return
+	}
+	runtime.GOMAXPROCS(runtime.NumCPU())
 	bcfgs, lcfg := tierCfg(ctx.Tier)
 	for i, c := range bcfgs {
 		runBFS(ctx, c, fmt.Sprintf("u%d", i+1))
@@ -565,7 +738,7 @@ func main() {
 			"values are 32-byte hashes as produced by stateBuffer.export; deletions are the DefaultLeaf value; one Update per Commit, as the node does per block",
 			"goroutine interleavings inside one Update (parallel subtrees) run under the Go scheduler here, they are not enumerated",
 		},
-		Shards: func(tier string) int { return 1 },
+		Shards: func(tier string) int { return 16 },
 		Budget: func(tier string) time.Duration {
 			if tier == "thorough" {
 				return 45 * time.Minute
